@@ -72,6 +72,18 @@ def h_pbc_k3():
     return cell, mf
 
 
+@cached
+def h_pbc_kdiag():
+    """one k-point whose Cartesian components cancel, k = (q, -q, 0): non-trivial twist phases although sum(k) = 0"""
+    import pyscf.pbc.gto
+    import pyscf.pbc.scf
+    a = 4.2
+    cell = pyscf.pbc.gto.M(atom="H 0.4 0.3 0.2; H 1.7 1.1 1.3", basis="sto-3g", unit="bohr", a=np.eye(3) * a, verbose=0)
+    q = 2 * np.pi / a / 4
+    mf = pyscf.pbc.scf.KRKS(cell, np.array([[q, -q, 0.0]])).run()
+    return cell, mf
+
+
 def randomize(wf, rng, skip=("mo_coeff", "det_coeff"), scale=0.3):
     for k in list(wf.parameters.keys()):
         if any(s in k for s in skip):
